@@ -80,9 +80,9 @@ func poolModel() porcupine.Model {
 
 func poolHistMain(seed uint64, tier, resPath string) {
 	out := &poolResult{Cov: map[string]int64{}}
-	rounds := 40
+	rounds := 100
 	if tier == "thorough" {
-		rounds = 400
+		rounds = 1000
 	}
 	dir, _ := os.MkdirTemp(scratchBase, "poolfiles")
 	defer os.RemoveAll(dir)
@@ -93,10 +93,29 @@ func poolHistMain(seed uint64, tier, resPath string) {
 		h := sha256.Sum256(b)
 		return hex.EncodeToString(h[:6])
 	}
+	// file sizes from a few bytes to several MiB (whatever the pool does differently for small and large files)
+	sizes := []int{0, 0, 3 << 10, 70 << 10, 257 << 10, 300 << 10, 1500 << 10, 4 << 20}
+	pad := func(head string, size int, rr *Rng) []byte {
+		b := []byte(head)
+		if size > len(b) {
+			ext := make([]byte, size-len(b))
+			x := rr.U64()
+			for i := range ext {
+				x = x*6364136223846793005 + 1442695040888963407
+				ext[i] = byte('a' + (x>>33)%26)
+				if i%80 == 79 {
+					ext[i] = '\n'
+				}
+			}
+			b = append(b, ext...)
+		}
+		return b
+	}
 	for round := 0; round < rounds; round++ {
 		session := hermes.NewHermesSession()
 		nPaths := r.Range(1, 3)
 		paths := make([]string, nPaths)
+		fsize := make([]int, nPaths)
 		var mu sync.Mutex
 		var ops []porcupine.Operation
 		record := func(op porcupine.Operation) {
@@ -107,12 +126,23 @@ func poolHistMain(seed uint64, tier, resPath string) {
 		// initial content of every path = a completed write before anything else
 		for i := range paths {
 			paths[i] = filepath.Join(dir, fmt.Sprintf("r%d_f%d.txt", round, i))
-			content := []byte(fmt.Sprintf("round %d file %d version 0 %d\n", round, i, r.U64()))
+			fsize[i] = sizes[r.Intn(len(sizes))]
+			if round%2 != 0 && fsize[i] > 300<<10 {
+				fsize[i] = 300 << 10 // the largest files in half of the rounds (cost under the race detector)
+			}
+			if fsize[i] > 256<<10 {
+				out.Cov["pool_files_above_256KiB"]++
+			}
+			content := pad(fmt.Sprintf("round %d file %d version 0 %d\n", round, i, r.U64()), fsize[i], r)
 			t0 := now()
 			os.WriteFile(paths[i], content, 0644)
 			record(porcupine.Operation{ClientId: 0, Input: poolIn{Path: paths[i], Write: true, Ver: verOf(content)}, Call: t0, Output: "", Return: now()})
 		}
 		nReaders := r.Range(2, 8)
+		storm := r.Bool(0.6)
+		if storm {
+			out.Cov["pool_rounds_first_load_storm"]++
+		}
 		nGets := r.Range(2, 6)
 		var wg sync.WaitGroup
 		start := make(chan struct{})
@@ -123,8 +153,9 @@ func poolHistMain(seed uint64, tier, resPath string) {
 			wr := NewRng(wseed)
 			<-start
 			for k := 1; k <= 3; k++ {
-				p := paths[wr.Intn(len(paths))]
-				content := []byte(fmt.Sprintf("%s version %d %d\n", filepath.Base(p), k, wr.U64()))
+				pi := wr.Intn(len(paths))
+				p := paths[pi]
+				content := pad(fmt.Sprintf("%s version %d %d\n", filepath.Base(p), k, wr.U64()), fsize[pi], wr)
 				tmp := p + ".tmp"
 				os.WriteFile(tmp, content, 0644)
 				t0 := now()
@@ -143,6 +174,9 @@ func poolHistMain(seed uint64, tier, resPath string) {
 				<-start
 				for k := 0; k < nGets; k++ {
 					p := paths[rr.Intn(len(paths))]
+					if k == 0 && storm {
+						p = paths[0] // first-load storm: every reader asks for the same uncached file at once
+					}
 					t0 := now()
 					b := session.HermesFilePool.Get(&hermes.FileDescriptior{FilePath: p, UseFilePool: true, ContinueOnError: true})
 					t1 := now()
